@@ -240,4 +240,6 @@ type goFunc struct {
 }
 
 // Call the function.
-func (f *goFunc) Call(s *slip.Scope, args slip.List, depth int) slip.Object { return f.call(s, args, depth) }
+func (f *goFunc) Call(s *slip.Scope, args slip.List, depth int) slip.Object {
+	return f.call(s, args, depth)
+}
